@@ -93,13 +93,13 @@ def make_cases(names):
         cfg = mats.CONFIGS[name]
         pr = draw(mats.properties(cfg))
         nhist = draw(st.integers(0, 2))
-        hist = [{'dir': draw(st.lists(st.floats(-1, 1), min_size=4, max_size=4)), 'mag': draw(st.floats(0.5, 5.0)), 'dtrel': draw(gen.logfloat(-3, 3))}
+        hist = [{'dir': draw(st.lists(gen.floats(-1, 1), min_size=4, max_size=4)), 'mag': draw(gen.floats(0.5, 5.0)), 'dtrel': draw(gen.logfloat(-3, 3))}
                 for _ in range(nhist)]
-        ev = {'dir': draw(st.lists(st.floats(-1, 1), min_size=4, max_size=4)), 'mag': draw(st.floats(0.2, 5.0)),
+        ev = {'dir': draw(st.lists(gen.floats(-1, 1), min_size=4, max_size=4)), 'mag': draw(gen.floats(0.2, 5.0)),
               'mode': ['continue', 'back', 'random', 'spherical'][draw(st.integers(0, 3))], 'dtrel': draw(gen.logfloat(-3, 3)),
               'rot': draw(gen.angle()), 'strain_exp': draw(st.integers(-6, -1))}
         dk = draw(st.integers(0, 5))
-        dH = draw(st.lists(st.floats(-1, 1), min_size=9, max_size=9))
+        dH = draw(st.lists(gen.floats(-1, 1), min_size=9, max_size=9))
         return {'model': name, 'props': pr, 'hist': hist, 'eval': ev, 'dkind': dk, 'dH': dH}
     return cases
 
